@@ -57,6 +57,31 @@ def _used(rxns):
     return [s for s in SUBST if any(r["rx"]["reac"][s] or r["rx"]["prod"][s] for r in rxns)]
 
 
+def _law_param(rec, form, gv):
+    """the `param` of a reaction for one way of giving its constants: form "inline" (quantities inside the
+    expression) or "keys" (unique keys only; the values come as parameters or substitutions)"""
+    from chempy.kinetics.rates import MassAction, Arrhenius, Eyring
+    law = rec.get("law", "mass")
+    if law == "mass":
+        return _q(rec["k"], gv) if form == "inline" else rec["name"]
+    cls = {"arrhenius": Arrhenius, "eyring": Eyring}[law]
+    if form == "inline":
+        return MassAction(cls([_q(rec["k"], gv), _q(rec["ea"], gv)]))
+    return MassAction(cls(unique_keys=(rec["name"], rec["ename"])))
+
+
+def _values(rec, gv):
+    """name -> quantity for the constants of one reaction"""
+    out = {rec["name"]: _q(rec["k"], gv)}
+    if rec.get("law", "mass") != "mass":
+        out[rec["ename"]] = _q(rec["ea"], gv)
+    return out
+
+
+def _is_named(j, mode):
+    return mode == "named" or (mode == "mixed" and j % 2 == 1)      # j is 1-based, as in UnitKinetics!IsNamed
+
+
 def _try_reaction(rx, param, cls=None):
     from chempy import Reaction
     cls = cls or Reaction
@@ -65,13 +90,15 @@ def _try_reaction(rx, param, cls=None):
 
 
 # --------------------------------------------------------------------------- executing a case
-def _eval_rates(rsys, reg, mode, conc, t0, params, oc=None, ot=None):
+def _eval_rates(rsys, reg, mode, conc, t0, params, oc=None, ot=None, subs=None):
     """get_odesys through its own callbacks -> unitless arrays and unitless f"""
     from chempy.kinetics.ode import get_odesys
     kw = {}
     if oc is not None:
         kw = dict(output_conc_unit=oc, output_time_unit=ot)
-    odesys, extra = get_odesys(rsys, include_params=(mode == "inline"), unit_registry=reg, **kw)
+    if subs:
+        kw["substitutions"] = subs
+    odesys, extra = get_odesys(rsys, include_params=(mode in ("inline", "subs")), unit_registry=reg, **kw)
     x, y, p = odesys.to_arrays(t0, conc, params)
     _x, _y, _p = odesys.pre_process(x, y, p)
     import numpy as np
@@ -172,19 +199,20 @@ def run_case(case):
                 ok, exc = _try_reaction(a["rx"], _q({"mag": a["mag"], "ux": a["kux"]}, gv), cls=Equilibrium)
                 out.append({"accepted": ok, "exc": exc})
             elif op == "build":
-                ks = [_q(r["k"], gv) for r in cin["sys"]]
-                acc = [_try_reaction(r["rx"], k)[0] for r, k in zip(cin["sys"], ks)]
+                acc = [_try_reaction(r["rx"], _law_param(r, "inline", gv))[0] for r in cin["sys"]]
                 out.append({"accept": acc})
-                state["ks"] = ks
             elif op == "rates":
-                ks = state["ks"]
                 mode = a["mode"]
-                if mode == "inline":
-                    rxns = [Reaction(_stoich(r["rx"]["reac"]), _stoich(r["rx"]["prod"]), param=k) for r, k in zip(cin["sys"], ks)]
-                    params = {}
-                else:
-                    rxns = [Reaction(_stoich(r["rx"]["reac"]), _stoich(r["rx"]["prod"]), param=r["name"]) for r in cin["sys"]]
-                    params = {r["name"]: k for r, k in zip(cin["sys"], ks)}
+                recs = cin["sys"]
+                rxns, params, subs = [], {}, {}
+                for j, r in enumerate(recs, 1):
+                    if mode == "inline" or (mode == "mixed" and not _is_named(j, mode)):
+                        rxns.append(Reaction(_stoich(r["rx"]["reac"]), _stoich(r["rx"]["prod"]), param=_law_param(r, "inline", gv)))
+                    else:
+                        rxns.append(Reaction(_stoich(r["rx"]["reac"]), _stoich(r["rx"]["prod"]), param=_law_param(r, "keys", gv)))
+                        (subs if mode == "subs" else params).update(_values(r, gv))
+                if any(r.get("law", "mass") != "mass" for r in recs):
+                    params["temperature"] = _q(a["temp"], gv)
                 used = _used(cin["sys"])
                 rsys = ReactionSystem(rxns, " ".join(used))
                 reg = uc.registry(a["reg"])
@@ -193,9 +221,9 @@ def run_case(case):
                 nxt = [b for b in cin["ops"] if b["op"] == "output"]
                 oc = uc.unit_expr(nxt[0]["oc"]) if nxt else None
                 ot = uc.unit_expr(nxt[0]["ot"]) if nxt else None
-                odesys, extra, obs = _eval_rates(rsys, reg, mode, conc, t0, params, oc, ot)
+                odesys, extra, obs = _eval_rates(rsys, reg, mode, conc, t0, params, oc, ot, subs)
                 state.update(odesys=odesys, conc=conc, t0=t0, t1=t1, params=params, reg=reg, rxns=rxns)
-                if mode == "named" and case.get("alt"):
+                if mode == "named" and case.get("alt") and all(r.get("law", "mass") == "mass" for r in recs):
                     try:   # the alternative builder works on its own copies of the quantities
                         obs["alt"] = _alt(rsys, reg, {s: _q(cin["cond"]["conc"][s], gv) for s in used}, t0, t1,
                                           {r["name"]: _q(r["k"], gv) for r in cin["sys"]})
@@ -224,6 +252,9 @@ def _sum_terms(terms, gv):
     scale = Fraction(0)
     for t in terms:
         v = t["c"] * uc.num(t["r"], gv)
+        x = uc.num(t["x"], gv) if "x" in t else 0
+        if x != 0:     # the rate is r * exp(-x): the exponential is the plain routine on the spec's exact argument
+            v = v * Fraction(math.exp(-float(x)))
         tot += v
         scale += abs(v)
     return tot, scale
@@ -255,16 +286,23 @@ def judge(case, i, a, obs, e, gv):
         for s in used:
             if not uc.close(obs["cin"][s], uc.num(e["cin"][s], gv), ctol):
                 return "to_arrays-concentration", "get_odesys"
-        if a["mode"] == "named":
-            for j, r in enumerate(case["in"]["sys"]):
-                n = r["name"]
-                if n not in obs["kin"] or not uc.close(obs["kin"][n], uc.num(e["kin"][j], gv), ctol):
+        for j, r in enumerate(case["in"]["sys"], 1):
+            if not _is_named(j, a["mode"]):
+                continue
+            want = [(r["name"], e["kin"][j - 1], e["p_units"][j - 1])]
+            if r.get("law", "mass") != "mass":
+                want.append((r["ename"], e["ein"][j - 1], e["t_unit"]))
+            for n, val, unit in want:
+                if n not in obs["kin"] or not uc.close(obs["kin"][n], uc.num(val, gv), ctol):
                     return "to_arrays-parameter", "get_odesys"
                 pu = obs["p_units"].get(n)
-                if pu is None or pu["dim"] != e["p_units"][j]["dim"]:
+                if pu is None or pu["dim"] != unit["dim"]:
                     return "p_units-dimension", "get_odesys"
-                if not uc.close(pu["si"], uc.scale_num(e["p_units"][j]["scale"], gv), ctol):
+                if not uc.close(pu["si"], uc.scale_num(unit["scale"], gv), ctol):
                     return "p_units-size", "get_odesys"
+        if "temperature" in obs["kin"]:
+            if not uc.close(obs["kin"]["temperature"], uc.num(e["tin"], gv), ctol):
+                return "to_arrays-parameter", "get_odesys"
         for s in used:
             tot, scale = _sum_terms(e["rates"][s], gv)
             if not uc.close_abs(obs["f"][s], tot / back, tol, scale / back):
@@ -379,6 +417,9 @@ def _key(case, a, clause, fn, i=None):
         key["prior"] = _prior(case, i)
     if "mode" in a:
         key["mode"] = a["mode"]
+    if "laws" in a:
+        key["laws"] = "+".join(sorted(set(a["laws"])))
+        key["named_laws"] = "+".join(sorted({l for j, l in enumerate(a["laws"], 1) if _is_named(j, a["mode"])})) or "none"
     return key
 
 
@@ -513,7 +554,7 @@ def _run_trace(h):
             rsys = ReactionSystem(rxns, " ".join(used), checks=())
             _, _, o = _eval_rates(rsys, uc.registry(h["reg"]), h["mode"], conc, t0, params)
             obs.update(o)
-            e = {"ev": "rates", "reg": {k: h["reg"][k] for k in uc.DIMS}, "mode": h["mode"],
+            e = {"ev": "rates", "reg": uc.reg_event(h["reg"]), "mode": h["mode"],
                  "used": used, "f": {s: _enc(o["f"].get(s)) for s in used}, "cin": {s: _enc(o["cin"].get(s)) for s in used},
                  "kin": [_enc(o["kin"].get(r["name"])) if h["mode"] == "named" else _enc(0.0) for r in h["rxns"]],
                  "pdim": [({k: o["p_units"][r["name"]]["dim"].get(k, 0) for k in uc.DIMS} if r["name"] in o["p_units"] else {k: 99 for k in uc.DIMS})
@@ -532,7 +573,7 @@ def _run_solver_trace(h):
     from chempy import Reaction
     ev = [{"ev": "system", "rxns": [{"rx": r["rx"], "kmag": r["kmag"], "kux": r["kux"]} for r in h["rxns"]]},
           {"ev": "build", "accepted": [True] * len(h["rxns"])},
-          {"ev": "solver", "reg": {k: h["reg"][k] for k in uc.DIMS}}]
+          {"ev": "solver", "reg": uc.reg_event(h["reg"])}]
     obs = []
     try:
         rxns = [Reaction(_stoich(r["rx"]["reac"]), _stoich(r["rx"]["prod"]), param=r["name"]) for r in h["rxns"]]
@@ -563,7 +604,8 @@ def _enc(v):
 # --------------------------------------------------------------------------- run
 def run(ctx):
     import core
-    cfgs = ["accept", "refuse", "rates_q", "solver_q"] if ctx.quick else ["accept", "refuse", "rates_t", "regs_t", "solver_t"]
+    cfgs = ["accept", "refuse", "rates_q", "laws_q", "solver_q"] if ctx.quick else \
+        ["accept", "refuse", "rates_t", "subs_t", "regs_t", "laws_q", "laws_t", "solver_t"]
     jobs = [dict(module="UnitKinetics_MC", cfg="UnitKinetics_MC_%s.cfg" % c, require_cases=50,
                  require_actions={"accept": ["GenRateAccept", "GenKAccept"], "refuse": ["GenSetSystem", "Build"],
                                   "rates_q": ["GenSetSystem", "Build", "GenSetConditions", "GenPhysicalRate", "GenOutput"],
@@ -577,8 +619,8 @@ def run(ctx):
     solver_groups = {}
     fails = 0
     for cfg, res in zip(cfgs, results[:-1]):
-        heavy = cfg.startswith("rates") or cfg.startswith("regs") or cfg.startswith("solver")
-        sel = ctx.pick(res.cases, ((120 if cfg.startswith("solver") else 420) if heavy else 1400) if ctx.quick else None)
+        heavy = cfg.split("_")[0] in ("rates", "regs", "solver", "laws", "subs")
+        sel = ctx.pick(res.cases, ({"solver_q": 120, "laws_q": 190}.get(cfg, 380) if heavy else 1400) if ctx.quick else None)
         for k, c in enumerate(sel):
             c["alt"] = heavy and (int(core.stable_hash(c["in"]), 16) % ALT_SHARE == 0)
         outs = ctx.pmap(replay_case, sel, chunksize=4 if heavy else None)
